@@ -79,6 +79,14 @@ namespace OP2Utility
 		stream.Read(mapHeader);
 		CheckMinVersionTag(mapHeader.versionTag);
 
+		// The width is stored as a base 2 logarithm and the tile count is kept in 32 bits:
+		// refuse a shift by 32 or more and a tile count that does not fit.
+		if (mapHeader.lgWidthInTiles >= 32 ||
+			(static_cast<uint64_t>(mapHeader.heightInTiles) << mapHeader.lgWidthInTiles) > UINT32_MAX) {
+			throw std::runtime_error("Map dimensions are too large: width 2^" + std::to_string(mapHeader.lgWidthInTiles) +
+				", height " + std::to_string(mapHeader.heightInTiles));
+		}
+
 		Map map;
 		map.versionTag = mapHeader.versionTag;
 		map.isSavedGame = mapHeader.bSavedGame;
